@@ -171,6 +171,11 @@ def run(ctx):
                '%s is not built from every %s marker version under (Fresh, version): %s' % (fld, 'past' if idx == 0 else 'future', [show(p)[:120] for p in ps]),
                key='RF-BIND|C03.H|%s' % fld)
     single_update(ctx)
+    # "verifies when checked with the same parameter": the verifier's parameter/shape checks are the accept conditions
+    # an honest MostRecent(N) / Complete proof has to meet, for every N (seeded change C03-r1-b changed them)
+    from rules import c07
+    from rules.c06 import SubCtx
+    c07.vh_rules(SubCtx(ctx, 'C03.verifier.'))
     c01.units_directory(ctx, 'C03')
     ds.err_discipline(ctx, 'C03', ['akd::directory::'], c02.c13_exc())
 
